@@ -7,7 +7,8 @@ MANIFEST = {
     "technique": "Lean 4 theorems (bv_decide, all 2^64 displacements per format) over a hand model of codewriter.cpp + regenerated format list + C++/Lean correspondence",
     "text": "For each of the OffsetFormats the sources construct (list regenerated from /repo on every run and proved to be a subset of the "
             "proved formats) Lean proves for every 64-bit displacement: accepted => the patched word decodes (independent spec) to exactly that "
-            "displacement and no bit outside the field changes; refused => no field content designates it. The model is tied to "
+            "displacement and no bit outside the field changes; refused => no field content designates it; hence (Props/C17Decide.lean, "
+            "offset_codec_decides) refusal IF AND ONLY IF unrepresentable and accepted displacements are encoded injectively. The model is tied to "
             "CodeWriterUtils::encode_offset32/64 and write_offset by running both on boundary, random and bulk-exhaustive inputs; the Lean "
             "monitor (the theorem's predicate) judges every answer of the real code.",
     "note": "Trusted: Lean kernel + bv_decide certificate axioms; Spec/Offset.lean (incl. the A32/T32 decoders written from the Arm ARM) and "
@@ -19,7 +20,7 @@ MANIFEST = {
             "bit-field aliases lsb,width -> immr,imms against executed BFM semantics; encode_lmh.",
 }
 MODS = ["AsmjitVerif.Props.C17", "AsmjitVerif.Props.C17A64", "AsmjitVerif.Props.C17Generic", "AsmjitVerif.Props.C17Arm32",
-        "AsmjitVerif.Props.C17Asm", "AsmjitVerif.Props.C17Bitfield"]
+        "AsmjitVerif.Props.C17Asm", "AsmjitVerif.Props.C17Bitfield", "AsmjitVerif.Props.C17Decide"]
 TYPECODE = {"signed": 0, "unsigned": 1, "a64Adr": 2, "a64Adrp": 3, "thumb32Adr": 4, "thumb32Blx": 5, "thumb32B": 6, "thumb32BCond": 7,
             "a32Adr": 8, "a32U23Signed": 9, "a32U23Split": 10, "a32_1To24": 11}
 M64 = (1 << 64) - 1
